@@ -89,9 +89,13 @@ func (s *state) walk(node ast.Node) {
 	case *ast.HeaderParamNode:
 		// TODO: Validate param types.
 	case *ast.ListNode:
+		// every command body is a list: it gets its own frame so that {let}
+		// variables end with the enclosing block.
+		s.context.push()
 		for _, node := range node.Nodes {
 			s.walk(node)
 		}
+		s.context.pop()
 
 		// Output nodes ----------
 	case *ast.PrintNode:
